@@ -868,6 +868,10 @@ class MutableDict(Mutable, Dict[_KT, _VT]):
         dict.clear(self)
         self.changed()
 
+    def __ior__(self, other: Any) -> MutableDict[_KT, _VT]:  # type: ignore[override,misc] # noqa: E501
+        self.update(other)
+        return self
+
     @classmethod
     def coerce(cls, key: str, value: Any) -> MutableDict[_KT, _VT] | None:
         """Convert plain dictionary to instance of this class."""
@@ -952,6 +956,11 @@ class MutableList(Mutable, List[_T]):
     def insert(self, i: SupportsIndex, x: _T) -> None:
         list.insert(self, i, x)
         self.changed()
+
+    def __imul__(self, n: SupportsIndex) -> MutableList[_T]:  # type: ignore[override,misc] # noqa: E501
+        list.__imul__(self, n)
+        self.changed()
+        return self
 
     def remove(self, i: _T) -> None:
         list.remove(self, i)
